@@ -128,6 +128,13 @@ class CaseEval:
             op, a, b = v.args
             x, y = self.ev(a, depth + 1), self.ev(b, depth + 1)
             base = op.replace('WithOverflow', '').replace('Unchecked', '')
+            if base in ('Eq', 'Ne') and 'DEFAULT' in (x, y):
+                # a handle compared with EMPTY_REF: a position found by the search never is the sentinel
+                o = y if x == 'DEFAULT' else x
+                if o == 'DEFAULT':
+                    return base == 'Eq'
+                if (isinstance(o, int) and not isinstance(o, bool)) or (isinstance(o, tuple) and o and o[0] == 'i'):
+                    return base == 'Ne'
             return self.arith(base, x, y)
         if k == 'un' and v.args[0] == 'Not':
             x = self.ev(v.args[1], depth + 1)
@@ -468,6 +475,15 @@ def walk_case(prog, fn, search, case, want_reads=False):
     for c in b.calls:
         if c.point[0] in blocks and c is not search and c.callee_name() in ('insert', 'remove', 'swap_remove', 'push') and c.args and buffer_of(prog, c.args[0]) == ('buffer',):
             effects.append((c.callee_name(), ev.ev(c.args[1]) if len(c.args) > 1 else None))
+        elif c.point[0] in blocks and c is not search:
+            # a removal through a function of the same type that removes the position it is given (the type's delete_by_index)
+            tgt = prog.resolve(c)
+            if tgt is not None and tgt.self_adt == fn.self_adt and not tgt.is_closure and tgt is not fn:
+                for rc in tgt.body.calls:
+                    if rc.callee_name() in ('remove', 'swap_remove') and rc.args and len(rc.args) == 2 and buffer_of(prog, rc.args[0]) == ('buffer',):
+                        pa = strip(rc.args[1])
+                        if pa is not None and pa.kind == 'param' and pa.args[0] - 1 < len(c.args) and len([x for x in tgt.body.calls if x.callee_name() in ('remove', 'swap_remove', 'insert', 'push')]) == 1:
+                            effects.append((rc.callee_name(), ev.ev(c.args[pa.args[0] - 1])))
     if want_reads:
         reads = []
         for c in b.calls:
